@@ -96,6 +96,7 @@ def scenario(draw):
     drivers = []
     for k in ("outside0", "outside1"):
         drivers.append([{"at_ms": t, "op": op, "pid": c} for t, op, c in sorted(callers[k])])
+    by_id = {p["id"]: p for p in payloads}
     for flv in ALL:
         if callers[flv]:
             prog, now = [], 0
@@ -105,6 +106,10 @@ def scenario(draw):
                     now = t
                 if op.startswith("adopt-private:"):
                     prog.append(["adopt-private", c, op.split(":")[1], 150])
+                elif op == "adopt" and flv in COROUTINE and by_id.get(c, {}).get("flavour") == flv and draw(st.booleans()):
+                    # adopted from the middle of a checkpoint-free section of a payload of the same flavour
+                    prog.append(["section-adopt", 500, c])
+                    by_id[c]["how"] = "from-inside-a-section"
                 else:
                     prog.append([op, c])
             prog.append(["sleep", 600000] if flv != "threading" else ["wait", "never"])
@@ -124,6 +129,15 @@ def scenario(draw):
     total = max(longest + 60, 250) + 200
     drivers.append([{"at_ms": total - 190, "op": "mark", "name": "control-begin"}, {"at_ms": total - 10, "op": "mark", "name": "control-end"},
                     {"at_ms": total, "op": "shutdown"}])
+    if not late and draw(st.integers(0, 2)) == 0:
+        # thread payloads that are still blocked when the runtime is shut down, and an executed asyncio payload whose life spans
+        # the shutdown: its beats must not pause while the runtime deals with the blocked threads
+        for i in range(draw(st.integers(1, 4))):
+            payloads.append({"id": 500 + i, "flavour": "threading", "role": "late-blocker", "reg": {"how": "pre"},
+                             "program": [["sleep", max(0, total - 60)], ["block", 60000]], "end": ["return", "None"]})
+        payloads.append({"id": 395, "flavour": "asyncio", "role": "spanning", "how": "execute", "caller": "outside-span", "reg": {"how": "execute"},
+                         "program": [["beat", 10, 80]], "end": ["return", "None"], "cleanup": {}})
+        drivers.append([{"at_ms": total - 150, "op": "execute", "pid": 395}])
     if late:
         # executes issued around the moment of shutdown, while adopted payloads are still being cleaned up
         script = []
@@ -213,6 +227,18 @@ def judge(sc, obs) -> Result:
             rate, rate_c = len(beats) / max(t1 - t0, 1), len(control) / max(c1 - c0, 1)
             if rate < 0.15 * rate_c:
                 res.fail("coroutines-stalled-by-thread", f"{hb['flavour']} heartbeat logged {len(beats)} beats during the {(t1 - t0) / 1e6:.0f} ms in which payload {p['id']} ({p['flavour']}) was blocked, against {len(control)} beats in the idle {(c1 - c0) / 1e6:.0f} ms control window")
+    # ---- ... nor while the runtime shuts down around threads that are still blocked
+    if any(p["role"] == "spanning" for p in sc["payloads"]) and not burning:
+        sd = [x["t_call"] for x in obs["ops"] if x.get("op") == "shutdown"]
+        beats = [e[0] for e in events(obs, "beat", 395)]
+        if sd and len(beats) >= 2:
+            t_sd = min(sd)
+            before = [b - a for a, b in zip(beats, beats[1:]) if b < t_sd]
+            after = [b - a for a, b in zip(beats, beats[1:]) if b >= t_sd]
+            if len(before) >= 5 and after and max(after) > max(300e6, 8 * max(before)):
+                res.fail("coroutines-stalled-by-thread", f"the beats of an executed asyncio payload paused for {max(after) / 1e6:.0f} ms during shutdown with "
+                                                         f"{sum(1 for p in sc['payloads'] if p['role'] == 'late-blocker')} thread payloads still blocked "
+                                                         f"(longest pause before shutdown: {max(before) / 1e6:.0f} ms)")
     return res
 
 
@@ -231,11 +257,12 @@ def run_case(sc) -> Result:
     nt = False
     for flv in COROUTINE:
         hows = [p.get("how") for p in sc["payloads"] if p["role"] == "worker" and p["flavour"] == flv]
-        res.cls(f"{flv}:adopted:%d" % sum(1 for h in hows if h in ("pre", "outside", "from", "from-private-loop")), f"{flv}:from-private-loop:%d" % sum(1 for h in hows if h == "from-private-loop"), f"{flv}:executed:%d" % sum(1 for h in hows if h == "execute"),
+        res.cls(f"{flv}:adopted:%d" % sum(1 for h in hows if h in ("pre", "outside", "from", "from-private-loop", "from-inside-a-section")), f"{flv}:from-inside-a-section:%d" % sum(1 for h in hows if h == "from-inside-a-section"), f"{flv}:from-private-loop:%d" % sum(1 for h in hows if h == "from-private-loop"), f"{flv}:executed:%d" % sum(1 for h in hows if h == "execute"),
                 f"{flv}:service:%d" % sum(1 for h in hows if h == "pre-service"))
         if "execute" in hows and any(h in ("pre", "outside", "from", "pre-service", "from-private-loop") for h in hows):
             nt = True
-    res.cls("blockers:%d" % sum(1 for p in sc["payloads"] if p["role"] == "blocker"), "direction:" + sc["direction"])
+    res.cls("blockers:%d" % sum(1 for p in sc["payloads"] if p["role"] == "blocker"), "direction:" + sc["direction"],
+            "blocked-threads-at-shutdown:" + str(any(p["role"] == "late-blocker" for p in sc["payloads"])))
     nsec = sum(1 for e in obs.get("log", []) if e[3] == "section")
     res.cls("sections:%s" % ("0" if not nsec else "<50" if nsec < 50 else ">=50"))
     res.nontrivial = nt
